@@ -53,6 +53,7 @@ type Param struct {
 	Code   string // protocol kind
 	Lean   string // Lean type
 	GoType string
+	Impl   string // extern_func with an extern_impl: the Lean term that instantiates it on the execution path
 }
 
 type reject struct{ msg string }
@@ -76,6 +77,9 @@ type fn struct {
 	decl  *ast.FuncDecl
 	tgt   *Target
 	lname string
+	capLoc   map[types.Object]int // capLocal memo: 1 yes, 2 no
+	extFuncs map[string]Param     // extern_func: normalised callee text -> parameter
+	extFSeen map[string]bool
 
 	names    map[types.Object]string
 	used     map[string]bool
@@ -136,6 +140,9 @@ func (t *fn) typeOf(e ast.Expr) types.Type {
 }
 
 func (t *fn) tyOf(e ast.Expr) *ty {
+	if gty := t.globalTyOf(e); gty != nil {
+		return gty
+	}
 	gt := t.typeOf(e)
 	r, err := t.goType(gt)
 	if err != nil {
@@ -273,12 +280,19 @@ func (t *fn) ident(x *ast.Ident) string {
 			if s, ok := t.sentinel(v); ok {
 				return s
 			}
+			if fnGlobals[t][o] != nil {
+				t.checkGlobalUse(x)
+				return t.names[o]
+			}
 			t.reject(x, "package-level variable `%s` (mutable global state) is outside the subset", x.Name)
 		}
 		if _, known := t.names[o]; !known {
 			t.reject(x, "variable `%s` is not in scope of the translation (untranslatable parameter used outside an extern expression?)", x.Name)
 		}
 		t.noteInt(x)
+		if t.capLocal(o) {
+			return t.names[o] + ".1"
+		}
 		return t.names[o]
 	case *types.Nil:
 		t.reject(x, "`nil` is outside the subset (slices are lists without a nil/empty distinction)")
@@ -596,6 +610,16 @@ func (t *fn) convert(x *ast.CallExpr, dstT types.Type) string {
 		return a
 	case src.k == kStruct && dst.k == kStruct && src.name == dst.name:
 		return a
+	case src.k == kList && src.str && dst.k == kList && !dst.str && isRuneTy(dst.elem):
+		return "(GoSem.stringToRunes " + a + ")" // []rune(s): decoded by the Utf8 prelude
+	case src.k == kList && !src.str && isRuneTy(src.elem) && dst.k == kList && dst.str:
+		return "(GoSem.runesToString " + a + ")" // string(runes)
+	case src.k == kBV && dst.k == kList && dst.str:
+		// string(b) for an integer b: the UTF-8 encoding of the code point b (NOT the one-byte string)
+		if src.signed {
+			return "(GoSem.runeToString " + a + ".toInt)"
+		}
+		return "(GoSem.runeToString (Int.ofNat " + a + ".toNat))"
 	}
 	t.reject(x, "conversion `%s` is outside the subset", t.text(x))
 	return ""
@@ -612,6 +636,9 @@ var bitsFuncs = map[string]string{
 func (t *fn) call(x *ast.CallExpr, want int) []string {
 	if name, ok := t.externAt[x]; ok {
 		return []string{name}
+	}
+	if r, ok := t.externFuncCall(x); ok {
+		return []string{r}
 	}
 	if tv, ok := t.pkg.info.Types[x.Fun]; ok && tv.IsType() {
 		return []string{t.convert(x, tv.Type)}
@@ -667,6 +694,9 @@ func (t *fn) call(x *ast.CallExpr, want int) []string {
 		t.noteInt(x)
 		return []string{"(" + lf + " " + t.ex(x.Args[0]) + ")"}
 	}
+	if r := t.utf8Call(x, full); r != nil {
+		return r
+	}
 	switch full {
 	case "fmt.Errorf", "errors.New":
 		return []string{t.errorfCall(x, full)}
@@ -676,6 +706,9 @@ func (t *fn) call(x *ast.CallExpr, want int) []string {
 	case "encoding/hex.DecodedLen":
 		t.noteInt(x)
 		return []string{"(Int.tdiv " + t.ex(x.Args[0]) + " (2 : Int))"}
+	}
+	if r := t.escCodecCall(x, full); r != nil {
+		return r
 	}
 	if callee.Pkg() == nil || !(callee.Pkg().Path() == t.g.l.modPath || strings.HasPrefix(callee.Pkg().Path(), t.g.l.modPath+"/")) {
 		t.reject(x, "call of `%s`: no Go semantics for this function in GoSem (add an extern option or a GoSem definition)", full)
@@ -703,6 +736,9 @@ func (t *fn) call(x *ast.CallExpr, want int) []string {
 	// function, or an in-out parameter of this function, whose own precondition covers it) and it
 	// does not occur in any other argument; the caller's variable is rebound to the returned slice.
 	var outObjs []types.Object
+	if outs, ok := t.recvFieldInOutCall(x, callee, dep); ok {
+		return outs
+	}
 	for _, ix := range dep.Sig.InOut {
 		id, ok := ast.Unparen(x.Args[ix]).(*ast.Ident)
 		if !ok {
@@ -856,6 +892,9 @@ func (t *fn) arg(e ast.Expr) string {
 func (t *fn) builtin(x *ast.CallExpr, name string) string {
 	switch name {
 	case "len":
+		if l, ok := t.setLen(x); ok {
+			return l
+		}
 		at := t.tyOf(x.Args[0])
 		if at.k != kList {
 			t.reject(x, "len of `%s`: type outside the subset", t.text(x.Args[0]))
@@ -971,6 +1010,9 @@ func (t *fn) sliceExpr(x *ast.SliceExpr) string {
 	if st.k != kList {
 		t.reject(x, "slicing `%s`: only slices and strings are in the subset", t.text(x.X))
 	}
+	if st.arrN > 0 {
+		t.checkArraySlice(x)
+	}
 	s := t.arg(x.X)
 	toInt := func(e ast.Expr) string {
 		i, isInt := t.indexTerm(e)
@@ -1043,6 +1085,9 @@ func (t *fn) composite(x *ast.CompositeLit) string {
 	ct := t.tyOf(x)
 	switch ct.k {
 	case kList:
+		if ct.arrN > 0 && len(x.Elts) != ct.arrN {
+			t.reject(x, "array literal with fewer elements than the array is outside the subset")
+		}
 		var items []string
 		for _, el := range x.Elts {
 			if _, ok := el.(*ast.KeyValueExpr); ok {
@@ -1288,7 +1333,7 @@ func (t *fn) usedOuter(lo, hi token.Pos, nodes ...ast.Node) []types.Object {
 		}
 		ast.Inspect(n, func(m ast.Node) bool {
 			if id, ok := m.(*ast.Ident); ok {
-				if v, ok := t.pkg.info.Uses[id].(*types.Var); ok && !v.IsField() && v.Pkg() != nil && v.Parent() != v.Pkg().Scope() {
+				if v, ok := t.pkg.info.Uses[id].(*types.Var); ok && !v.IsField() && v.Pkg() != nil && (v.Parent() != v.Pkg().Scope() || fnGlobals[t][v] != nil) {
 					if _, known := t.names[v]; known {
 						set[v] = true
 					}
@@ -1318,9 +1363,17 @@ func (t *fn) varTy(o types.Object) *ty {
 	if st := t.ptrSlice[o]; st != nil {
 		return st
 	}
+	if gty := fnGlobals[t][o]; gty != nil {
+		return gty
+	}
 	r, err := t.goType(o.Type())
 	if err != nil {
 		panic(reject{fmt.Sprintf("variable %s: %v", o.Name(), err)})
+	}
+	if t.capLocal(o) {
+		c := *r
+		c.capPair = true
+		return &c
 	}
 	return r
 }
@@ -1492,13 +1545,18 @@ func (t *fn) assignTo(lhs ast.Expr, val string) []string {
 		if !ok {
 			t.reject(lhs, "assignment to `%s`", l.Name)
 		}
-		if v.Parent() == v.Pkg().Scope() {
+		if v.Parent() == v.Pkg().Scope() && !(fnGlobals[t][o] != nil && t.inoutSet[o]) {
 			t.reject(lhs, "assignment to the package-level variable `%s` is outside the subset", l.Name)
 		}
-		if o == t.recvObj {
+		if o == t.recvObj && !(!t.recvPtr && t.recvTy != nil && (t.recvTy.k == kBV || t.recvTy.k == kInt || t.recvTy.k == kBool)) {
+			// (a by-value receiver of scalar type is a local copy: assigning it is `let` shadowing)
 			t.reject(lhs, "assignment to the receiver variable itself is outside the subset")
 		}
 		vt := t.varTy(o)
+		if vt.capPair {
+			// a write through the capacity-tracked local: the visible part changes, the rest of the array stays
+			return []string{fmt.Sprintf("let %s : %s := (%s, %s.2)", t.nameOf(o), vt.lean(), val, t.nameOf(o))}
+		}
 		return []string{fmt.Sprintf("let %s : %s := %s", t.nameOf(o), vt.lean(), val)}
 	case *ast.IndexExpr:
 		st := t.tyOf(l.X)
@@ -1595,6 +1653,9 @@ func (t *fn) freshLocal(o types.Object) bool {
 	}
 	if sig.Recv() == o {
 		return false
+	}
+	if t.capLocal(o) {
+		return true
 	}
 	okAll := true
 	seen := false
@@ -1773,6 +1834,9 @@ func (t *fn) checkRecvFieldUnaliased(f *ast.SelectorExpr) {
 }
 
 func (t *fn) assign(x *ast.AssignStmt) []string {
+	if l, ok := t.setStmt(x); ok {
+		return l
+	}
 	// define: fresh objects get their names at this point
 	if x.Tok != token.ASSIGN && x.Tok != token.DEFINE {
 		// op=
@@ -1824,6 +1888,9 @@ func (t *fn) assign(x *ast.AssignStmt) []string {
 		t.reject(x, "assignment count mismatch")
 	}
 	if len(x.Lhs) == 1 {
+		if lines, ok := t.capLocalAssign(x); ok {
+			return lines
+		}
 		if ce, ok := ast.Unparen(x.Rhs[0]).(*ast.CallExpr); ok && t.isBuiltinCall(ce, "copy") {
 			// `n := copy(dst, src)`: the copy first (it rebinds dst), then the count is stored
 			v := t.copyCall(ce)
@@ -2062,6 +2129,8 @@ func (t *fn) loop(node ast.Node, cond ast.Expr, bodyHead func(c *ctx, k func() [
 	t.loopN++
 	myN := t.loopN
 	lname := fmt.Sprintf("%s_loop%d", t.lname, myN)
+	ldef := lname
+	lname += t.extFuncArgs() // extern function parameters are passed on to the loop (before the fuel)
 	fuel := t.fuelFor(node)
 	// state: assigned in body/post and declared outside the body
 	var nodes []ast.Node
@@ -2180,7 +2249,7 @@ func (t *fn) loop(node ast.Node, cond ast.Expr, bodyHead func(c *ctx, k func() [
 	})
 	t.loopDepth--
 	var def []string
-	def = append(def, fmt.Sprintf("def %s%s (fuel : Nat) %s : Res (%s) :=", lname, t.tbinder, strings.Join(params, " "), resT))
+	def = append(def, fmt.Sprintf("def %s%s (fuel : Nat) %s : Res (%s) :=", ldef, t.tbinder+t.extFuncBinders(), strings.Join(params, " "), resT))
 	def = append(def, "  match fuel with", "  | 0 => .fuel", "  | fuel + 1 => do")
 	def = append(def, indent(indent(iter))...)
 	t.loopDefs = append(t.loopDefs, strings.Join(def, "\n"))
@@ -2216,6 +2285,7 @@ func (t *fn) rangeStmt(x *ast.RangeStmt, c *ctx, k func() []string) []string {
 	return t.withPre(func() []string {
 		var lines []string
 		idx := t.fresh("ri")
+		strRange := false
 		var limit string // Int term
 		var elemOf func(i string) []string
 		switch u := xt.Underlying().(type) {
@@ -2232,10 +2302,15 @@ func (t *fn) rangeStmt(x *ast.RangeStmt, c *ctx, k func() []string) []string {
 					t.reject(x, "range over an integer with two variables")
 				}
 			} else if u.Info()&types.IsString != 0 {
-				if x.Value != nil {
-					t.reject(x, "range over a string decodes runes: outside the subset (use a byte loop or the Utf8 prelude by hand)")
+				// `for i, v := range s`: a range over the list of (byte offset, rune) pairs that the Utf8
+				// prelude decodes from s (evaluated once; strings are immutable)
+				strRange = true
+				sv := t.fresh("rs")
+				lines = append(lines, fmt.Sprintf("let %s : %s := GoSem.strRange %s", sv, strRangeTy, t.ex(x.X)))
+				limit = "(Int.ofNat " + sv + ".length)"
+				elemOf = func(i string) []string {
+					return []string{fmt.Sprintf("GoSem.idx %s %s", sv, i)}
 				}
-				t.reject(x, "range over a string (rune positions) is outside the subset")
 			} else {
 				t.reject(x, "range over %s is outside the subset", xt)
 			}
@@ -2265,6 +2340,13 @@ func (t *fn) rangeStmt(x *ast.RangeStmt, c *ctx, k func() []string) []string {
 			elemOf = func(i string) []string {
 				return []string{fmt.Sprintf("GoSem.idx %s %s", sv, i)}
 			}
+		case *types.Array:
+			// `for i := range g` over a package-level array of the option "globals": the array is not
+			// evaluated (no value variable), the bound is its constant length
+			if t.globalTyOf(x.X) == nil || x.Value != nil {
+				t.reject(x, "range over %s is outside the subset (maps, channels, arrays, functions)", xt)
+			}
+			limit = fmt.Sprintf("(%d : Int)", u.Len())
 		default:
 			t.reject(x, "range over %s is outside the subset (maps, channels, arrays, functions)", xt)
 		}
@@ -2275,6 +2357,9 @@ func (t *fn) rangeStmt(x *ast.RangeStmt, c *ctx, k func() []string) []string {
 		define := x.Tok == token.DEFINE
 		head := func(lc *ctx, body func() []string) []string {
 			var hl []string
+			if strRange {
+				return append(t.strRangeHead(x, elemOf(idx)[0]), body()...)
+			}
 			if x.Key != nil {
 				if id, ok := x.Key.(*ast.Ident); !ok || id.Name != "_" {
 					if define {
@@ -2311,6 +2396,8 @@ func (t *fn) rangeLoop(x *ast.RangeStmt, idx string, cnt *types.Var, limit strin
 	head func(lc *ctx, body func() []string) []string, c *ctx, k func() []string) []string {
 	t.loopN++
 	lname := fmt.Sprintf("%s_loop%d", t.lname, t.loopN)
+	ldef := lname
+	lname += t.extFuncArgs()
 	fuel := t.fuelFor(x)
 	state := t.assignedOuter(x.Body)
 	if x.Tok == token.ASSIGN {
@@ -2344,6 +2431,9 @@ func (t *fn) rangeLoop(x *ast.RangeStmt, idx string, cnt *types.Var, limit strin
 		ty := "Int"
 		if strings.HasPrefix(w, "rs") {
 			ty = t.tyOf(x.X).lean()
+			if xt := t.tyOf(x.X); xt.k == kList && xt.str {
+				ty = strRangeTy
+			}
 		}
 		params = append(params, fmt.Sprintf("(%s : %s)", w, ty))
 		capNames = append(capNames, w)
@@ -2393,7 +2483,7 @@ func (t *fn) rangeLoop(x *ast.RangeStmt, idx string, cnt *types.Var, limit strin
 	})
 	t.loopDepth--
 	var def []string
-	def = append(def, fmt.Sprintf("def %s%s (fuel : Nat) %s : Res (%s) :=", lname, t.tbinder, strings.Join(params, " "), resT))
+	def = append(def, fmt.Sprintf("def %s%s (fuel : Nat) %s : Res (%s) :=", ldef, t.tbinder+t.extFuncBinders(), strings.Join(params, " "), resT))
 	def = append(def, "  match fuel with", "  | 0 => .fuel", "  | fuel + 1 => do")
 	def = append(def, indent(indent(iter))...)
 	t.loopDefs = append(t.loopDefs, strings.Join(def, "\n"))
@@ -2415,6 +2505,9 @@ func (t *fn) rangeLoop(x *ast.RangeStmt, idx string, cnt *types.Var, limit strin
 // ---------------------------------------------------------------- copy, ownership moves
 
 func (t *fn) isBuiltinCall(ce *ast.CallExpr, name string) bool {
+	if name == "copy" && t.isEncodeRune(ce) {
+		return true // utf8.EncodeRune(dst[a:], r) writes its first argument like copy: same statement forms, same checks
+	}
 	id, ok := ast.Unparen(ce.Fun).(*ast.Ident)
 	if !ok || id.Name != name {
 		return false
@@ -2437,6 +2530,9 @@ func (t *fn) isBuiltinCall(ce *ast.CallExpr, name string) bool {
 func (t *fn) copyCall(x *ast.CallExpr) string {
 	if len(x.Args) != 2 || x.Ellipsis != token.NoPos {
 		t.reject(x, "malformed copy")
+	}
+	if t.isEncodeRune(x) {
+		return t.encodeRuneCall(x)
 	}
 	dt := t.tyOf(x.Args[0])
 	st := t.tyOf(x.Args[1])
@@ -3674,4 +3770,201 @@ func (t *fn) assignElemField(l *ast.SelectorExpr, ix *ast.IndexExpr, val string)
 		}
 	}
 	return t.assignElemFieldPlain(l, ix, val)
+}
+
+// ---------------------------------------------------------------- unicode/utf8.EncodeRune, unicode/utf16.DecodeRune
+
+// calleeFullName: the full name of the declared function a call refers to ("" when there is none).
+func (t *fn) calleeFullName(ce *ast.CallExpr) string {
+	se, ok := ast.Unparen(ce.Fun).(*ast.SelectorExpr)
+	if !ok {
+		return ""
+	}
+	f, _ := t.pkg.info.ObjectOf(se.Sel).(*types.Func)
+	if f == nil {
+		return ""
+	}
+	return f.FullName()
+}
+
+func (t *fn) isEncodeRune(ce *ast.CallExpr) bool {
+	return t.calleeFullName(ce) == "unicode/utf8.EncodeRune"
+}
+
+// escCodecCall: standard-library functions with an exact GoSem definition that are used as VALUES.
+func (t *fn) escCodecCall(x *ast.CallExpr, full string) []string {
+	switch full {
+	case "unicode/utf16.DecodeRune":
+		return []string{"(GoSem.utf16DecodeRune " + t.arg(x.Args[0]) + " " + t.arg(x.Args[1]) + ")"}
+	case "unicode/utf8.EncodeRune":
+		t.reject(x, "utf8.EncodeRune(...) writes its first argument: it is translated only as a statement or as the whole right-hand side of `n := utf8.EncodeRune(dst[a:], r)` / `v += utf8.EncodeRune(dst[a:], r)`")
+	}
+	return nil
+}
+
+// encodeRuneCall translates `utf8.EncodeRune(dst[a:b], r)` (or `dst[a:]`, `dst`): like copy, a write-through into the
+// window of a slice that is writable without aliasing; the returned term is the number of bytes written.
+// GoSem.utf8EncodeRuneAt: the slice expression panics as usual; the encoding (1–4 bytes, U+FFFD for surrogates and
+// values outside 0..0x10FFFF) is written at the start of the window when it fits, otherwise the call panics BEFORE
+// writing anything (the library checks the last index first).
+func (t *fn) encodeRuneCall(x *ast.CallExpr) string {
+	dt := t.tyOf(x.Args[0])
+	rt := t.tyOf(x.Args[1])
+	if dt.k != kList || dt.str || dt.elem.k != kBV || dt.elem.bits != 8 || rt.k != kBV || rt.bits != 32 || !rt.signed {
+		t.reject(x, "utf8.EncodeRune(%s, %s): operand types outside the subset", t.text(x.Args[0]), t.text(x.Args[1]))
+	}
+	dst := ast.Unparen(x.Args[0])
+	var window *ast.SliceExpr
+	base := dst
+	if se, ok := dst.(*ast.SliceExpr); ok {
+		if se.Slice3 {
+			t.reject(x, "3-index slice expression is outside the subset (capacity is not modelled)")
+		}
+		window = se
+		base = ast.Unparen(se.X)
+	}
+	switch base.(type) {
+	case *ast.Ident, *ast.SelectorExpr:
+	default:
+		t.reject(x, "utf8.EncodeRune into `%s`: the destination must be a variable, a receiver field or a slice expression of one", t.text(dst))
+	}
+	t.checkWritable(base)
+	cur := t.arg(base)
+	toInt := func(e ast.Expr) string {
+		i, isInt := t.indexTerm(e)
+		if isInt {
+			return parenIf(i)
+		}
+		return "(Int.ofNat " + i + ")"
+	}
+	lo := "0"
+	hi := "(Int.ofNat " + cur + ".length)"
+	if window != nil && window.Low != nil {
+		lo = toInt(window.Low)
+	}
+	if window != nil && window.High != nil {
+		hi = toInt(window.High)
+	}
+	r := t.arg(x.Args[1])
+	cp := t.fresh("er")
+	t.emit(fmt.Sprintf("let %s ← GoSem.utf8EncodeRuneAt %s %s %s %s", cp, cur, lo, hi, r))
+	for _, l := range t.assignTo(base, cp+".1") {
+		t.emit(l)
+	}
+	t.noteInt(x)
+	return cp + ".2"
+}
+
+// ---- package-level fixed-size arrays as explicit state (target option "globals", wave 9) ----
+//
+// A package-level variable `var g [N]T` named in the target's "globals" becomes a parameter
+// `g : List T` of the translated function (its value when the function is called; PRECONDITION
+// `g.length = N`); when the function writes an element of it, it is in-out (its final value is
+// returned after the results, like a written slice parameter).  A Go array is a VALUE: nothing
+// can alias it unless it is sliced or its address is taken, so only `g[i]`, `g[i] = v`, `len(g)`
+// and `range g` are accepted.
+
+var fnGlobals = map[*fn]map[types.Object]*ty{}
+
+func (t *fn) globalTyOf(e ast.Expr) *ty {
+	if len(fnGlobals[t]) == 0 {
+		return nil
+	}
+	id, ok := ast.Unparen(e).(*ast.Ident)
+	if !ok {
+		return nil
+	}
+	return fnGlobals[t][t.pkg.info.ObjectOf(id)]
+}
+
+// checkGlobalUse: the occurrence x of a global array is the base of an index expression, the
+// argument of len, or the range expression of a `for … range` without a value variable.
+func (t *fn) checkGlobalUse(x *ast.Ident) {
+	if t.parents == nil {
+		t.parents = t.parentMap()
+	}
+	var child ast.Node = x
+	par := t.parents[child]
+	for {
+		if pe, ok := par.(*ast.ParenExpr); ok {
+			child, par = pe, t.parents[pe]
+			continue
+		}
+		break
+	}
+	switch p := par.(type) {
+	case *ast.IndexExpr:
+		if p.X == child {
+			return
+		}
+	case *ast.CallExpr:
+		if t.isBuiltinCall(p, "len") {
+			return
+		}
+	case *ast.RangeStmt:
+		if p.X == child && p.Value == nil {
+			return
+		}
+	}
+	t.reject(x, "package-level array `%s`: only `%s[i]`, `%s[i] = v`, `len(%s)` and `for i := range %s` are in the subset (a slice of it or its address would alias it)", x.Name, x.Name, x.Name, x.Name, x.Name)
+}
+
+// declareGlobals registers the globals of the target as parameters; it returns the Lean binders.
+func (t *fn) declareGlobals(out *FuncResult) []string {
+	if t.tgt == nil || len(t.tgt.Globals) == 0 {
+		return nil
+	}
+	var params []string
+	fnGlobals[t] = map[types.Object]*ty{}
+	for _, name := range t.tgt.Globals {
+		o, _ := t.pkg.types.Scope().Lookup(name).(*types.Var)
+		if o == nil {
+			t.reject(t.decl, "globals: `%s` is not a package-level variable", name)
+		}
+		at, ok := o.Type().Underlying().(*types.Array)
+		if !ok {
+			t.reject(t.decl, "globals: `%s` is not a fixed-size array (only arrays are values that nothing can alias)", name)
+		}
+		et, err := t.goType(at.Elem())
+		if err != nil || !(et.k == kBV || et.k == kInt || et.k == kBool) {
+			t.reject(t.decl, "globals: element type of `%s` is outside the subset", name)
+		}
+		gty := &ty{k: kList, elem: et}
+		fnGlobals[t][o] = gty
+		ln := leanIdent(name)
+		if t.used[ln] {
+			t.reject(t.decl, "globals: name clash on `%s`", name)
+		}
+		t.used[ln] = true
+		t.names[o] = ln
+		params = append(params, fmt.Sprintf("(%s : %s)", ln, gty.lean()))
+		out.Sig.Params = append(out.Sig.Params, Param{Name: ln, Code: "", Lean: gty.lean()})
+		written := false
+		ast.Inspect(t.decl.Body, func(m ast.Node) bool {
+			mark := func(e ast.Expr) {
+				if ix, ok := ast.Unparen(e).(*ast.IndexExpr); ok {
+					if id, ok := ast.Unparen(ix.X).(*ast.Ident); ok && t.pkg.info.ObjectOf(id) == types.Object(o) {
+						written = true
+					}
+				}
+			}
+			switch s := m.(type) {
+			case *ast.AssignStmt:
+				for _, l := range s.Lhs {
+					mark(l)
+				}
+			case *ast.IncDecStmt:
+				mark(s.X)
+			}
+			return true
+		})
+		note := fmt.Sprintf("package-level array `%s [%d]%s` is the parameter `%s : %s`: its value when the function is called; PRECONDITION `%s.length = %d`", name, at.Len(), types.TypeString(at.Elem(), nil), ln, gty.lean(), ln, at.Len())
+		if written {
+			t.inout = append(t.inout, o)
+			t.inoutSet[o] = true
+			note += "; the function writes it, so its final value is returned after the results (state passing)"
+		}
+		t.notes = append(t.notes, note)
+	}
+	return params
 }
